@@ -123,19 +123,19 @@ func (f *compressFilter) Do(cmd string, req *simpleRequest) FilterStatus {
 		return Continue
 	}
 	cfg := f.cfg.GetRedisOption().GetCompression()
-	if cfg == nil {
-		return Continue
-	}
 
 	// register decompression hook if needed.
+	// NOTE: uncompress always works, also when the compression section is
+	// removed from the config again: the values which were written while it
+	// was there are still compressed.
 	if _, ok := wkSkipCheckCmdsInDecps[cmd]; !ok {
 		req.RegisterHook(func(request *simpleRequest) {
 			f.Decompress(request.resp)
 		})
 	}
 
-	// skip if the compression is not enabled.
-	if !cfg.Enable {
+	// skip if the compression is not configured or not enabled.
+	if cfg == nil || !cfg.Enable {
 		return Continue
 	}
 	// reject the banned commands.
